@@ -36,7 +36,7 @@ Inductive obs :=
           (it1 : bres) (read1 : bool) (it2 : bres) (read2 : bool)
 | OSnap (copied : option exn) (same_type : bool) (c1 c2 : bres) (read_after : bool) (orig : bres)
 | OEq (eq ne : bool)
-| OMime (r : res ctype perr).
+| OMime (echo : ctype) (r : res ctype perr).    (* the content type that went in, and what came back *)
 
 (* ---------------- the quantifier "every split" ---------------- *)
 (* all ways of cutting a byte string into consecutive non-empty chunks ... *)
@@ -112,6 +112,15 @@ Definition joined_okb (r : bres) (w : res (list N) exn) : bool :=
 
 Definition chunks_eqb : list chunk -> list chunk -> bool := list_eqb bytes_eqb.
 
+(* identical content types (same parameters in the same order) *)
+Definition dict_eqb_exact : dict -> dict -> bool := list_eqb (pair_eqb str_eqb str_eqb).
+Definition ctype_eqb (a b : ctype) : bool :=
+  str_eqb (ct_type a) (ct_type b) && str_eqb (ct_sub a) (ct_sub b) && dict_eqb_exact (ct_params a) (ct_params b).
+
+(* did the content type c come back from render + _make_content_type? *)
+Definition survives (c : ctype) (r : res ctype perr) : bool :=
+  match r with Ok c' => ct_eqb c' c | Raised _ => false end.
+
 (* where a BytesIO stands after it was read to the end from position p *)
 Definition pos_after (len p : nat) : nat := Nat.max p len.
 
@@ -172,8 +181,7 @@ Definition spec_okb (i : input) (o : obs) : bool :=
   | ISnap r, OSnap copied same c1 c2 ra orig => snap_okb r copied same c1 c2 ra orig
   | IEq ta ca tb cb, OEq e ne =>
       Bool.eqb e (ct_eqb ta tb && bytes_eqb (concat ca) (concat cb)) && Bool.eqb ne (negb e)
-  | IMime ct, OMime r =>
-      match r with Ok ct' => ct_eqb ct' ct | Raised _ => false end
+  | IMime ct, OMime echo r => ctype_eqb echo ct && survives ct r
   | _, _ => false
   end.
 
@@ -259,6 +267,6 @@ Definition Spec (i : input) (o : obs) : Prop :=
   | ISnap r, OSnap copied same c1 c2 ra orig => SnapSpec r copied same c1 c2 ra orig
   | IEq ta ca tb cb, OEq e ne =>
       (e = true <-> CtSame ta tb /\ concat ca = concat cb) /\ ne = negb e
-  | IMime ct, OMime r => exists ct', r = Ok ct' /\ CtSame ct' ct
+  | IMime ct, OMime echo r => echo = ct /\ exists ct', r = Ok ct' /\ CtSame ct' ct
   | _, _ => False
   end.
